@@ -14,6 +14,7 @@ import base64
 import json
 import os
 import random
+import re
 import zlib
 import time
 
@@ -193,6 +194,58 @@ def classify(res):
     return "model:?"
 
 
+def old_syntax_stage(ctx, R, cov):
+    """models in the 3.x syntax (newxta = false), rendered by hand in both formats: comma lists as conjunctions in guards and invariants,
+    `:=` assignments, parameter-less `process P {`, `const` without a type.  Testing only (the Lean models describe the 4.x syntax)."""
+    r = ctx.rng
+    pairs = {}
+    for k in range(12 if not ctx.thorough else 120):
+        ng, ni, na = r.randint(1, 3), r.randint(1, 3), r.randint(1, 3)
+        gl = ["c >= %d" % r.randint(0, 3), "d >= %d" % r.randint(0, 3), "x == %d" % r.randint(0, 2)][:ng]
+        il = ["c <= %d" % r.randint(4, 9), "d <= %d" % r.randint(4, 9), "c - d <= %d" % r.randint(1, 5)][:ni]
+        al = ["x := %d" % r.randint(0, 3), "y := x + %d" % r.randint(1, 3), "c := 0"][:na]
+        decl = "const N %d; int x, y; clock c, d; chan a;" % r.randint(1, 5)
+        xta = ("%s\nprocess P { state S0 { %s }, S1; init S0; trans S0 -> S1 { guard %s; sync a!; assign %s; }, S1 -> S0 { guard x <= N; assign c := 0; }; }\n"
+               "process Q { state T0; init T0; trans T0 -> T0 { sync a?; }; }\nsystem P, Q;\n" % (decl, ", ".join(il), ", ".join(gl), ", ".join(al)))
+        xml = ('<?xml version="1.0" encoding="utf-8"?><nta><declaration>%s</declaration>'
+               '<template><name>P</name><location id="id0"><name>S0</name><label kind="invariant">%s</label></location>'
+               '<location id="id1"><name>S1</name></location><init ref="id0"/>'
+               '<transition><source ref="id0"/><target ref="id1"/><label kind="guard">%s</label><label kind="synchronisation">a!</label>'
+               '<label kind="assignment">%s</label></transition>'
+               '<transition><source ref="id1"/><target ref="id0"/><label kind="guard">x &lt;= N</label><label kind="assignment">c := 0</label></transition></template>'
+               '<template><name>Q</name><location id="id2"><name>T0</name></location><init ref="id2"/>'
+               '<transition><source ref="id2"/><target ref="id2"/><label kind="synchronisation">a?</label></transition></template>'
+               '<system>system P, Q;</system></nta>' % (decl, ", ".join(il).replace("<", "&lt;"), ", ".join(gl).replace(">", "&gt;"), ", ".join(al)))
+        pairs["o%d" % k] = (xml, xta)
+    frames = []
+    for cid, (xml, xta) in pairs.items():
+        frames += [(cid + ".xml", m.frame("xml0", cid + ".xml", xml)), (cid + ".xta", m.frame("xta0", cid + ".xta", xta))]
+    blocks, crashed = m.run_batches(R.exe, [], frames)
+    nbad, accepted = 0, 0
+
+    def view(b):
+        doc = [l for l in b if not l.startswith(("TRACE", "BEGIN", "END", "ERROR", "WARNING", "ACTNAMES"))]     # (action names: finding of their own)
+        diag = sorted(re.sub(r' path=.*$', "", l) for l in b if l.startswith(("ERROR", "WARNING")))
+        return doc, diag
+    for cid, (xml, xta) in pairs.items():
+        bx, bt = blocks.get(cid + ".xml"), blocks.get(cid + ".xta")
+        if bx is None or bt is None:
+            ctx.finding("crash:old-syntax", "the harness died on an old-syntax model", {"xml": xml, "xta": xta})
+            break
+        (dx, ex), (dt, et) = view(bx), view(bt)
+        accepted += any(l.startswith("VERDICT errors=0") for l in bx)
+        if dx != dt or ex != et:
+            nbad += 1
+            if nbad == 1:
+                d = [(a, b_) for a, b_ in zip(dx + ex, dt + et) if a != b_][:2]
+                ctx.finding("xml-vs-xta:old-syntax", "the XML and the XTA rendering of the same 3.x-syntax model give different results: %r" % (d,),
+                            {"entry": "parse_XML_buffer(xml, Document*, newxta=false) vs parse_XTA(xta, Document*, newxta=false)", "xml": xml, "xta": xta,
+                             "xml_result": (dx + ex)[:60], "xta_result": (dt + et)[:60]})
+    cov["old_syntax_pairs"] = len(pairs)
+    cov["old_syntax_accepted"] = accepted
+    cov["old_syntax_differences"] = nbad
+
+
 def run(ctx):
     cov = ctx.coverage
     m.regen_tables(ctx)      # on failure (reported as a broken tie) go on with the tables of the last good run: the oracle below finds the input
@@ -220,6 +273,7 @@ def run(ctx):
     t1 = time.time()
     bad, stats = R.compare(cases)
     cov["run_s"] = round(time.time() - t1, 1)
+    old_syntax_stage(ctx, R, cov)
     real = {c: r for c, r in bad.items() if any(k in r for k in ("crash", "anomaly", "doc_xml_vs_xta", "diagnostics_xml_vs_xta"))}
     act = {c: r for c, r in bad.items() if "actname" in r and c not in real}
     modelonly = {c: r for c, r in bad.items() if c not in real and any(k in r for k in ("trace_xta", "trace_xml", "doc_xta_vs_model", "lean"))}
